@@ -382,6 +382,8 @@ type Rig struct {
 	FS    afero.Fs
 	Root  string
 	Seams *Seams
+
+	heldHandle afero.File // a handle kept open across calls (witness histories only)
 }
 
 func tapeDir(dir string) string { return filepath.Join(dir, "tape") }
